@@ -7,8 +7,8 @@
 
 namespace c18 {
 
-enum Kind : int { ADD, CONSUME, ATMOST, REWIND, RESET, CLEAR, REPEAT, QUERY, NKINDS };
-static const char *kind_name[] = {"add", "consume", "atmost", "rewind", "reset", "clear", "repeat", "query"};
+enum Kind : int { ADD, CONSUME, ATMOST, REWIND, RESET, CLEAR, REPEAT, QUERY, SETBAD, NKINDS };   // SETBAD n: a set-up call with invalid arguments (variant n) on the buffer in use
+static const char *kind_name[] = {"add", "consume", "atmost", "rewind", "reset", "clear", "repeat", "query", "setbad"};
 struct Op { int kind; size_t n; };
 
 struct Model {
@@ -126,6 +126,22 @@ inline std::string step(Impl &im, Model &m, const Op &op, Labels &lab) {
         break;
     }
     case REPEAT: byte_buffer_repeat(&im.b); m.off = 0; break;
+    case SETBAD: {
+        // set-up refuses invalid arguments - also on a buffer that is in use, which then stays what it was
+        vp::Block other(m.size + 3);
+        int rc;
+        switch (op.n % 5) {
+        case 0: rc = byte_buffer_set(&im.b, other.p, m.size + 3, m.size + 4, 0); break;      // used > size
+        case 1: rc = byte_buffer_set(&im.b, other.p, m.size + 3, 1, 2); break;               // offset > used
+        case 2: rc = byte_buffer_set(&im.b, nullptr, m.size, 0, 0); break;                   // null memory
+        case 3: rc = byte_buffer_set(&im.b, im.mem, 0, 0, 0); break;                         // zero size
+        default: rc = byte_buffer_set(&im.b, other.p, 1, 2, 0); break;                       // used > size, smaller memory
+        }
+        if (rc >= 0) return tag("invalid-accepted");
+        std::string c = compare(im, m);          // before `other` goes away
+        if (!c.empty()) return tag("refused-but-" + c);
+        break;
+    }
     case QUERY:
         if (byte_buffer_avail(&im.b) != m.avail()) return tag("avail");
         if (byte_buffer_rest(&im.b) != m.rest()) return tag("rest");
